@@ -89,7 +89,11 @@ def step (st : St) (j : Json) : Except String (St × Json × List Fired) := do
           | _, _ => []
         | _ => []
       let st' := { st with s := addRequest s req, expects := st.expects ++ exps }
-      pure (st', (dump st').setObjVal! "err" (js ""), [])
+      -- an accepted request (by message or by IBC packet) asks for at least one report and for no more than it has validators:
+      -- with min_count 0 no report ever makes the count EQUAL to it and the script never runs
+      let bad := req.minCount == 0 || req.minCount > req.vals.length
+      pure (st', (dump st').setObjVal! "err" (js ""),
+        if bad then [{ name := "request_accepted_with_min_count_outside_1_to_ask_count", detail := mkObj [("minCount", jn req.minCount), ("askCount", jn req.vals.length)] }] else [])
   | "report" =>
     let val ← jnat j "val"
     let rid ← jnat j "rid"
